@@ -222,7 +222,7 @@ impl Ldap {
                 self.controls is None && self.timeout is None && self.search_opts is None,
             ensures
                 stream.items@.len() == 0,
-//@ insert after "re_vec.push(entry);"
+//@ insert loop-end 1
             proof { assert(re_vec@ + stream.items@ =~= all); }
 //@ insert before "let res = stream.finish().verif_await();"
         proof { assert(re_vec@ =~= all); } //# C10.search_returns_every_item_the_stream_yields_in_order
@@ -274,7 +274,7 @@ impl EntriesOnly {
             }
 //@ insert after "if re.is_intermediate() {"
                         proof { n = n + 1; assert(stream.items@ =~= all.skip(n)); }
-//@ insert after "self.refs.extend(parse_refs(re.0));"
+//@ insert after "} else if re.is_ref() {"
                         proof { n = n + 1; assert(stream.items@ =~= all.skip(n)); }
 //@ insert before "                        Ok(Some(re))"
                         proof { assert(stream.items@ =~= all.skip(n + 1)); assert(re == all[n]); }
